@@ -30,7 +30,7 @@ def roundsKB {R : Type} (m0 : M128i) (m1 : M128i) (m2 : M128i) (m3 : M128i) (m4 
 
 /-- CPS copy of the generated `compress_b_avx_src` (same prologue and epilogue, the rounds as `roundsKB`) -/
 def compress_b_avx_proK (h : List UInt64) (h_off : Nat) (block : Bytes) (block_off : Nat) (iv : List UInt64) (iv_off : Nat) (t : List UInt64) (t_off : Nat) (f : M128i) : Except String (List UInt64) :=
-  if ¬ (((16 - h_off % 16) % 16) = 0) then .error "PANIC" else
+  if ¬ (debugAssert (((16 - h_off % 16) % 16) = 0)) then .error "PANIC" else
   match _mm_loadu_si128 block block_off with
   | .error err => .error err
   | .ok v =>
